@@ -73,6 +73,26 @@ pub fn configs(prop: &str, thorough: bool) -> Vec<(Cfg, Option<usize>)> {
                 c.inst_must_fail = true;
                 out.push((c, Some(0)));
             }
+            // many accounts carried through an upgrade from every pre-0.14 layout (batch boundaries at 10, 30)
+            {
+                let names: Vec<&'static str> = vec![
+                    "U00", "U01", "U02", "U03", "U04", "U05", "U06", "U07", "U08", "U09", "U10", "U11", "U12", "U13", "U14", "U15", "U16",
+                    "U17", "U18", "U19", "U20", "U21", "U22", "U23", "U24", "U25", "U26", "U27", "U28", "U29", "U30", "U31", "U32",
+                ];
+                let mut c = Cfg::base("C01/upgrade/33-accounts");
+                c.props = p.clone();
+                c.actors = names.clone();
+                c.initial = (0..33u8).map(|i| (i, 1 + (i as u128 % 3))).collect();
+                c.mint = Some((0, None));
+                c.senders = vec![0];
+                c.recipients = vec![1];
+                c.amounts = vec![1];
+                c.kinds = kinds(&["Transfer"]);
+                c.owners = vec![];
+                c.spenders = vec![];
+                c.migrate_probe = true;
+                out.push((c, Some(2)));
+            }
             // boundary amounts: depth-bounded
             for (n, init, mint) in [
                 ("Amax", vec![(0u8, MAX)], Some((3u8, None))),
@@ -157,6 +177,22 @@ pub fn configs(prop: &str, thorough: bool) -> Vec<(Cfg, Option<usize>)> {
                 out.push((c, None));
             }
             {
+                // the spender pulls tokens into ITSELF (SendFrom with contract == spender) and owners send to themselves
+                let mut c = mk("C02/closed/self-pull");
+                c.initial = vec![(0, 2)];
+                c.senders = vec![0];
+                c.recipients = vec![0, 2];
+                c.owners = vec![0];
+                c.spenders = vec![2];
+                c.amounts = vec![0, 1, 2];
+                c.exps = vec![ExpA::Unset];
+                c.payloads = vec![0, 1];
+                c.grant_cap = Some(2);
+                c.hmax = H0;
+                c.kinds = kinds(&["Send", "Inc", "TransferFrom", "SendFrom"]);
+                out.push((c, None));
+            }
+            {
                 // cumulative monitor (history in state): depth-bounded
                 let mut c = mk("C02/monitor/granted-vs-drawn");
                 c.initial = vec![(0, 3)];
@@ -216,6 +252,13 @@ pub fn configs(prop: &str, thorough: bool) -> Vec<(Cfg, Option<usize>)> {
                 c.amounts = vec![1, 2];
                 c.mint_amounts = if n == "capmax" { vec![0, 1, 2, MAX] } else { vec![0, 1, 2, 3, MAX] };
                 c.kinds = kinds(&["Mint", "Burn", "UpdateMinter", "Transfer"]);
+                if n == "cap=initial+2" || n == "cap=initial" {
+                    // burns through an allowance re-open room under the cap exactly once
+                    c.kinds = kinds(&["Mint", "Burn", "UpdateMinter", "Transfer", "Inc", "BurnFrom", "TransferFrom"]);
+                    c.owners = vec![4];
+                    c.spenders = vec![0];
+                    c.grant_cap = Some(2);
+                }
                 // upgrades must not touch the minter or the cap: migrate from every old layout at every state
                 c.migrate_probe = true;
                 let depth = if n == "capmax" { Some(if thorough { 5 } else { 3 }) } else { None };
@@ -244,6 +287,24 @@ pub fn configs(prop: &str, thorough: bool) -> Vec<(Cfg, Option<usize>)> {
                     c.exps = vec![ExpA::Unset, ExpA::H(H0 + 1)];
                     c.hmax = H0 + 1;
                 }
+                out.push((c, None));
+            }
+            {
+                // an owner that grants before ever holding a token (no balance record), carried through migration
+                let mut c = Cfg::base("C19/closed/owner-without-balance-record");
+                c.actors = actors.clone();
+                c.props = p.clone();
+                c.initial = vec![(0, 1)];
+                c.senders = vec![0];
+                c.recipients = vec![1, 3];
+                c.owners = vec![0, 1];
+                c.spenders = vec![2];
+                c.amounts = vec![0, 1];
+                c.exps = vec![ExpA::Unset, ExpA::H(H0 + 1)];
+                c.grant_cap = Some(1);
+                c.hmax = H0 + 1;
+                c.kinds = kinds(&["Transfer", "Inc", "Dec", "TransferFrom", "BurnFrom"]);
+                c.migrate_probe = true;
                 out.push((c, None));
             }
             if thorough {
